@@ -82,12 +82,20 @@ Definition fast_argb (pl : placement) : Res (list (list Z)) :=
     mapR (fun y => mapR (fun x => p <- rd4 pl (row_off pl y + x * 4) ;; Ok (argb_of p)) (zrange (pw pl))) (zrange (ph pl))
   else p <- picture pl ;; Ok (gen_argb p).   (* generic At() fallback *)
 
-(** encode.go imageHasAlpha: off := (y-b.Min.Y)*Stride + 3; off += 4 *)
+(** encode.go imageHasAlpha: off := (y-b.Min.Y)*Stride + 3; off += 4; returns true at the first
+    alpha <> 255 (later pixels are not read); generic fallback: img.At(x, y).RGBA() in the same order. *)
+Fixpoint scan_alpha (reads : list (Res Z)) : Res bool :=
+  match reads with
+  | [] => Ok false
+  | r :: t => a <- r ;; if a =? 255 then scan_alpha t else Ok true
+  end.
+
 Definition fast_root_has_alpha (pl : placement) : Res bool :=
   if validb pl then
-    rows <- mapR (fun y => mapR (fun x => rd pl (y * pStride pl + 3 + 4 * x)) (zrange (pw pl))) (zrange (ph pl)) ;;
-    Ok (any_transparent rows)
-  else p <- picture pl ;; Ok (gen_has_alpha p).
+    scan_alpha (flat_map (fun y => map (fun x => rd pl (y * pStride pl + 3 + 4 * x)) (zrange (pw pl))) (zrange (ph pl)))
+  else
+    scan_alpha (flat_map (fun y => map (fun x => p <- at_generic pl (bMinX pl + x) (bMinY pl + y) ;; Ok (alpha_of p))
+                                       (zrange (pw pl))) (zrange (ph pl))).
 
 (** lossy.imageHasAlpha (no validNRGBA guard):
     rowOff := (y-Rect.Min.Y)*Stride + (bounds.Min.X-Rect.Min.X)*4 for y from bounds.Min.Y; reads rowOff+3+4x *)
